@@ -809,5 +809,19 @@ V('C11', 'shim-data-not-converted', 'fire', 'C11.R8', "shim hands the caller's d
 V('C11', 'data-converted-in-jax-wrapper', 'silent', '', 'the conversion of the data moved from shim into the jax wrapper',
   ('src/pyhf/optimize/common.py', '        objective,\n        tensorlib.astensor(data),\n        pdf,\n        stitch_pars,\n', '        objective,\n        data,\n        pdf,\n        stitch_pars,\n'),
   ('src/pyhf/optimize/opt_jax.py', '    tensorlib, _ = get_backend()\n    # NB: tuple arguments that need to be hashable (static_argnums)\n', '    tensorlib, _ = get_backend()\n    data = tensorlib.astensor(data)\n    # NB: tuple arguments that need to be hashable (static_argnums)\n'))
+V('C18', 'channel-xml-cached-by-path', 'fire', 'C18.R5', 'channel XML documents parsed once per path for the life of the process',
+  ('src/pyhf/readxml.py', 'import logging\n', 'import functools\nimport logging\n'),
+  ('src/pyhf/readxml.py', 'def extract_error(hist: uproot.behaviors.TH1.TH1) -> list[float]:\n', '@functools.lru_cache(maxsize=None)\ndef _load_channel_xml(path):\n    return ET.parse(path)\n\n\ndef extract_error(hist: uproot.behaviors.TH1.TH1) -> list[float]:\n'),
+  ('src/pyhf/readxml.py', '            ET.parse(resolver(inp)), resolver, track_progress\n', '            _load_channel_xml(resolver(inp)), resolver, track_progress\n'))
+V('C18', 'channel-xml-helper-uncached', 'silent', '', 'channel XML documents parsed through a helper without a cache',
+  ('src/pyhf/readxml.py', 'def extract_error(hist: uproot.behaviors.TH1.TH1) -> list[float]:\n', 'def _load_channel_xml(path):\n    return ET.parse(path)\n\n\ndef extract_error(hist: uproot.behaviors.TH1.TH1) -> list[float]:\n'),
+  ('src/pyhf/readxml.py', '            ET.parse(resolver(inp)), resolver, track_progress\n', '            _load_channel_xml(resolver(inp)), resolver, track_progress\n'))
+V('C18', 'writer-wraps-long-text', 'fire', 'C18.R5', 'the pretty-printer wraps long element text; the reader splits on single blanks',
+  ('src/pyhf/writexml.py', 'import shutil\n', 'import shutil\nimport textwrap\n'),
+  ('src/pyhf/writexml.py', '        if not elem.text or not elem.text.strip():\n            elem.text = i + "  "\n        if not elem.tail or not elem.tail.strip():\n            elem.tail = i\n        for subelem in elem:\n', '        if not elem.text or not elem.text.strip():\n            elem.text = i + "  "\n        elif len(elem) == 0 and len(elem.text) > 120:\n            elem.text = textwrap.fill(elem.text, width=120, break_long_words=False, break_on_hyphens=False)\n        if not elem.tail or not elem.tail.strip():\n            elem.tail = i\n        for subelem in elem:\n'))
+V('C18', 'writer-wraps-reader-splits-on-whitespace', 'silent', '', 'the pretty-printer wraps long element text and the reader splits on any whitespace',
+  ('src/pyhf/writexml.py', 'import shutil\n', 'import shutil\nimport textwrap\n'),
+  ('src/pyhf/writexml.py', '        if not elem.text or not elem.text.strip():\n            elem.text = i + "  "\n        if not elem.tail or not elem.tail.strip():\n            elem.tail = i\n        for subelem in elem:\n', '        if not elem.text or not elem.text.strip():\n            elem.text = i + "  "\n        elif len(elem) == 0 and len(elem.text) > 120:\n            elem.text = textwrap.fill(elem.text, width=120, break_long_words=False, break_on_hyphens=False)\n        if not elem.tail or not elem.tail.strip():\n            elem.tail = i\n        for subelem in elem:\n'),
+  ('src/pyhf/readxml.py', "                for param_name in param.text.strip().split(' '):\n", '                for param_name in param.text.split():\n'))
 V("C13", "code4-exponent-mask-strict", "fire", "C13.R3", "code 4 takes exponent 1 (a constant) exactly at |alpha| = alpha0",
   ("src/pyhf/interpolators/code4.py", "            exponents >= self.__alpha0, exponents, self.ones", "            exponents > self.__alpha0, exponents, self.ones"))
